@@ -735,7 +735,7 @@ package http2
 //@ requires recv: f != nil
 //@ # a nil body panics
 //@ requires body: fr != nil
-//@ opt noframe=true
+//@ modifies f.kind, f.fr
 //@ ensures set: f.fr == fr
 
 //@ macro frameNonNil(x) = (typeis(x, *Data) ==> as(x, *Data) != nil) && (typeis(x, *Headers) ==> as(x, *Headers) != nil) &&
@@ -750,6 +750,78 @@ package http2
 //@ props C05 C18
 //@ requires recv: f != nil && w != nil && f.fr != nil
 //@ requires body: frameNonNil(f.fr) && frameSep(f.fr, f.payload)
+//@ modifies *f, capacity(f.payload), anybytes(), family(Data), family(Headers), family(Priority), family(RstStream), family(Settings), family(PushPromise), family(Ping), family(GoAway), family(WindowUpdate), family(Continuation)
 //@ opt noframe=true
 //@ # the length field is the length of the serialised payload
 //@ ensures length: f.length == len(f.payload)
+
+// ---------------------------------------------------------------------------
+// Server: stream state machine, flow control, limits (serverConn.go, stream.go)
+// Stream states: 0 idle, 1 reserved, 2 open, 3 half-closed(remote), 4 closed.
+// ---------------------------------------------------------------------------
+
+//@ macro esflag(fr) = (fr.kind == 0 || fr.kind == 1) && hasflag(fr.flags, 1)
+
+//@ func handleState
+//@ props C08 C01
+//@ requires args: fr != nil && strm != nil
+//@ modifies strm.state
+//@ let s0 = old(strm.state)
+//@ # RFC 7540 section 5.1. END_STREAM exists only on HEADERS and DATA; RST_STREAM closes from any state.
+//@ ensures rst: fr.kind == 3 ==> strm.state == 4
+//@ ensures idlehdr: s0 == 0 && fr.kind == 1 ==> strm.state == ite(esflag(fr), 3, 2)
+//@ ensures idleother: s0 == 0 && fr.kind != 1 && fr.kind != 3 ==> strm.state == 0
+//@ ensures open: s0 == 2 && fr.kind != 3 ==> strm.state == ite(esflag(fr), 3, 2)
+//@ ensures half: s0 == 3 && fr.kind != 3 ==> strm.state == 3
+//@ ensures closed: s0 == 4 ==> strm.state == 4
+//@ ensures reserved: s0 == 1 && fr.kind != 3 ==> strm.state == 1
+
+//@ func (*Stream).continuingHeaders
+//@ props C08
+//@ requires args: s != nil && fr != nil
+//@ pure
+//@ ensures def: r0 <==> (fr.kind == 9 && !s.headersFinished)
+
+//@ func (*serverConn).verifyState
+//@ props C08
+//@ requires args: sc != nil && strm != nil && fr != nil
+//@ pure
+//@ # idle: only HEADERS and PRIORITY are legal (RFC 7540 5.1), anything else is a connection error PROTOCOL_ERROR
+//@ ensures idle: strm.state == 0 ==> (r0 == nil <==> (fr.kind == 1 || fr.kind == 2))
+//@ ensures idlecode: strm.state == 0 && r0 != nil ==> iserror(r0) && errcode(r0) == ProtocolError && errframe(r0) == FrameGoAway
+//@ # half-closed(remote): WINDOW_UPDATE, PRIORITY, RST_STREAM and the CONTINUATION of a header block in progress; else STREAM_CLOSED
+//@ ensures half: strm.state == 3 ==> (r0 == nil <==> (fr.kind == 8 || fr.kind == 2 || fr.kind == 3 || (fr.kind == 9 && !strm.headersFinished)))
+//@ ensures halfcode: strm.state == 3 && r0 != nil ==> iserror(r0) && errcode(r0) == StreamClosedError
+//@ ensures other: strm.state != 0 && strm.state != 3 ==> r0 == nil
+
+//@ func validateRequestPseudoHeaders
+//@ props C20
+//@ requires args: strm != nil
+//@ pure
+//@ # RFC 7540 8.1.2.3: :method, :scheme and a non-empty :path are mandatory
+//@ ensures iff: r0 == nil <==> (strm.pseudoMethod && strm.pseudoScheme && strm.pseudoPath && len(strm.path) > 0)
+//@ ensures code: r0 != nil ==> iserror(r0) && errcode(r0) == ProtocolError && errframe(r0) == FrameResetStream
+
+//@ func (*serverConn).writeWindowUpdate
+//@ props C14
+//@ requires recv: sc != nil
+//@ # RFC 7540 6.9: an increment is 1..2^31-1; 0 is a protocol error at the peer
+//@ requires inc: 1 <= inc && inc <= 2147483647
+//@ opt noframe=true
+
+//@ func (*serverConn).consumeRecvWindow
+//@ props C14 C09
+//@ requires args: sc != nil && strm != nil && fr != nil
+//@ # what the stream loop maintains: the advertised window is non-negative and at least half of it is open
+//@ requires inv: sc.maxWindow >= 0 && sc.currentWindow >= sc.maxWindow / 2 && sc.currentWindow <= sc.maxWindow
+//@ # a DATA frame is at most 2^24-1 octets
+//@ requires size: n <= 16777215
+//@ modifies sc.currentWindow
+//@ opt noframe=true
+//@ let w0 = old(sc.currentWindow)
+//@ # the peer's view of the connection window never stays below half of what was advertised
+//@ ensures refill: n > 0 ==> sc.currentWindow == ite(w0 - n < sc.maxWindow / 2, sc.maxWindow, w0 - n)
+//@ ensures noop: n <= 0 ==> sc.currentWindow == w0
+//@ ensures inv: sc.currentWindow <= sc.maxWindow && sc.currentWindow >= sc.maxWindow / 2
+//@ # stream credit: everything received is handed back unless the peer has finished the stream
+//@ ensures strmcredit: n > 0 && !hasflag(fr.flags, 1) ==> called((*serverConn).writeWindowUpdate) >= 1
